@@ -178,7 +178,7 @@ func cmdCheck(args []string) int {
 	if t := os.Getenv("VERIF_TIER"); t != "" && *tier == "" {
 		*tier = t
 	}
-	tmo := 10
+	tmo := 30
 	if *tier == "thorough" {
 		tmo = 60
 	}
@@ -390,7 +390,7 @@ func cmdCheck(args []string) int {
 			} else if haveExpected {
 				path := writeReplay(replayDir, *prop, ob, p)
 				confirmed := replayConfirmed(path)
-				if len(p.BindByFunc[ob.Func]) > 0 && !confirmed {
+				if (len(p.BindByFunc[ob.Func]) > 0 || len(p.ApproxBind[ob.Func]) > 0) && !confirmed {
 					// the contract of this function no longer fits its code (a loop was restructured, a local renamed): the
 					// failed proof says nothing about the property. Undecided; the check ends with status 2, not with a violation
 					bindUndecided[ob.Func] = append(bindUndecided[ob.Func], ob.Name)
@@ -474,6 +474,13 @@ func cmdCheck(args []string) int {
 		fmt.Printf("expected list rewritten: %d obligations\n", len(newExpected))
 	}
 	// binding problems: an error (status 2) only where an obligation of that function could not be established
+	for _, fn := range sortedKeys(p.ApproxBind) {
+		if len(bindUndecided[fn]) > 0 && len(p.BindByFunc[fn]) == 0 {
+			p.bindProblem(fn, p.ApproxBind[fn][0]+" (guessed); the proof over the guessed binding failed")
+		} else {
+			fmt.Println("NOTE contract-binding", p.ApproxBind[fn][0])
+		}
+	}
 	for _, fn := range sortedKeys(p.BindByFunc) {
 		word := "NOTE contract-binding"
 		if len(bindUndecided[fn]) > 0 {
